@@ -283,6 +283,25 @@ fn arb_segs() -> impl Strategy<Value = Vec<Seg>> {
     })
 }
 
+/// documents of many segments (counts around powers of two) and documents with one long text
+fn arb_many_segs() -> impl Strategy<Value = Vec<Seg>> {
+    (
+        arb_seg(true),
+        proptest::collection::vec(arb_seg(false), 3..=12),
+        prop::sample::select(vec![15usize, 16, 17, 127, 128, 129, 255, 256, 257, 258, 300, 511, 512, 513, 1025]),
+    )
+        .prop_map(|(a, pool, n)| {
+            let mut v = vec![a];
+            for i in 1..n {
+                let mut s = pool[(i * 5 + i / pool.len()) % pool.len()].clone();
+                // distinguishable texts, so that a dropped or repeated segment is noticed
+                s.text = format!("{}{}", s.text, i);
+                v.push(s);
+            }
+            v
+        })
+}
+
 fn run(args: &Args, rep: &mut Report) {
     let tier = args.tier;
     rep.assume("styles accumulated over several sequences, 256-colour/RGB colours and bold+dim in one sequence are outside the explored domain (open findings F12, F13, F15, replayed as fixed inputs)");
@@ -339,6 +358,22 @@ fn run(args: &Args, rep: &mut Report) {
             arb_segs,
             |segs, _| match check(segs) {
                 Ok(nt) => Verdict::ok(nt.then(|| digest_str(&render_input(segs)))),
+                Err(m) => Verdict { result: Err(m), nontrivial: None },
+            },
+            |segs| serde_json::to_value(segs).unwrap(),
+        ),
+    );
+    rep.add(
+        "many-segments",
+        false,
+        "15..1025 segments (counts around powers of two) with distinguishable texts",
+        prop_par(
+            "many-segments",
+            args.seed,
+            tier.pick(600, 60_000),
+            arb_many_segs,
+            |segs, _| match check(segs) {
+                Ok(_) => Verdict::ok(Some(digest_str(&render_input(segs)))),
                 Err(m) => Verdict { result: Err(m), nontrivial: None },
             },
             |segs| serde_json::to_value(segs).unwrap(),
